@@ -38,7 +38,7 @@ def cfg_jobs(multi, binsearch, greater, tier, ls=4, is_=4, reduced=False):
     J('ctor', 'ctor', 'c_ctor', [r'BTree\('], mem_gb=1, what='default construction: empty well-formed tree')
     # mutating operations: one job per tree shape AND tuple of leaf fill degrees (all assigned): only then is the pointer
     # structure concrete enough for the solver; keys stay symbolic.  The quick tier takes the tuples that reach each
-    # leaf-level rebalancing case once; the thorough tier enumerates every tuple for roots with 1 and 2 separators.
+    # leaf-level rebalancing case once; the thorough tier adds every tuple for a root with one separator and six with two.
     INS = [r'insert_start\(', r'insert_descend\(', r'split_leaf_node\(']
     ERA = [r'erase_one\(', r'erase_one_descend\(', r'merge_leaves\(', r'shift_left_leaf\(', r'shift_right_leaf\(']
     ERI = [r'erase\(tlx::BTree<.*>::iterator\)', r'erase_iter_descend\(']
@@ -51,7 +51,9 @@ def cfg_jobs(multi, binsearch, greater, tier, ls=4, is_=4, reduced=False):
     q_ins = ['1', '4', '44', '24', '42', '234'] if not reduced else ['4']
     q_era = ['1', '2', '22', '23', '32'] if not reduced else ['2']
     q_eri = ['1', '22', '32'] if not reduced else []
-    all12 = [''.join(t) for r in (1, 2) for t in itertools.product('234', repeat=r + 1)] + ['1', '2', '3', '4']
+    # thorough tier of the full configuration: every tuple for a root with one separator, every single-leaf fill, and six
+    # tuples for a root with two separators (each such job: 3-8 min, 5 GB); the other configurations run their quick lists only
+    all12 = ([''.join(t) for t in itertools.product('234', repeat=2)] + ['1', '2', '3', '4'] + ['222', '234', '432', '423', '324', '244']) if not reduced else []
     for fl in sorted(set(q_ins + all12)):
         if len(fl) - 1 >= is_: continue
         J('insert_f' + fl, 'insert', 'c_insert', INS, shape(fl), unwindset=['ir_memset.0:70'], tier=tier if fl in q_ins else 'thorough',
@@ -92,8 +94,8 @@ def jobs(tier):
     js = []
     js += cfg_jobs(0, 0, 0, 'quick')
     js += cfg_jobs(1, 1, 0, 'quick', reduced=True)
-    js += cfg_jobs(0, 1, 1, 'thorough')
-    js += cfg_jobs(1, 0, 1, 'thorough')
+    js += cfg_jobs(0, 1, 1, 'thorough', reduced=True)
+    js += cfg_jobs(1, 0, 1, 'thorough', reduced=True)
     return js
 
 
@@ -104,6 +106,6 @@ META = {
     'not_decided': ['trees deeper than 2 levels (inner-level merge/shift/split), insert into a tree whose root inner node is full (growth to depth 3)',
                     'btree_map / btree_multimap, copy / assignment / swap / bulk_load / comparison operators, erase(key) removing all duplicates, node capacities other than 4/4',
                     'erase(iterator) on a multiset whose root is an inner node (the duplicate scan over several leaves: two copies of the rebalancing code exceed 14 GB of formula); seeded change C01-m1 lives there and is NOT detected',
-                    'whole-tree mutating operations run once per tuple of leaf fill degrees: quick tier = the tuples listed in props/C01.py, thorough tier = every tuple for roots with 1 and 2 separators; other tuples (3, 4 separators) only as far as listed'],
+                    'whole-tree mutating operations run once per tuple of leaf fill degrees: quick tier = the tuples listed in props/C01.py, thorough tier = every tuple for a root with one separator plus six tuples with two separators; other tuples are not run'],
     'explanation': 'every listed public operation enforced from an arbitrary well-formed tree of depth <= 2: verify()-conditions as representation invariant, view by ghost key/rank, node allocation ledger',
 }
